@@ -25,8 +25,12 @@ func (pass *DisjunctionInferMapping) Process(schemas []*ast.Schema) ([]*ast.Sche
 	return visitor.VisitSchemas(schemas)
 }
 
-func (pass *DisjunctionInferMapping) processDisjunction(_ *Visitor, schema *ast.Schema, def ast.Type) (ast.Type, error) {
-	var err error
+func (pass *DisjunctionInferMapping) processDisjunction(visitor *Visitor, schema *ast.Schema, def ast.Type) (ast.Type, error) {
+	// disjunctions nested within the branches have to be processed too
+	def, err := visitor.VisitDisjunctionBranches(schema, def)
+	if err != nil {
+		return ast.Type{}, err
+	}
 
 	if !def.Disjunction.Branches.HasOnlyRefs() {
 		return def, nil
